@@ -149,6 +149,15 @@ def handler_facts(disc, to_code):
         m = re.search(r"\bfn\s+" + fn + r"\b", srv)
         if not m: raise ExtractError(f"fn {fn}")
         sites[fn] = dict(decode_site(srv, m.end(), disc, repe_fail, True), emptySkips=False)
+    # the bulk readers behind the slice routes (message.rs): the empty generic array, else beve's reader on the raw body
+    msg = test_mod_cut(strip(read("src/message.rs")))
+    rb = norm(fn_body(msg, "read_typed_slice_body"))
+    bulk_strict = bool(re.fullmatch(r"if body == BEVE_EMPTY_GENERIC_ARRAY \{ return Ok\(Vec::new\(\)\); \} beve::read_typed_slice(?:::<\w+>)?\(body\)", rb)) \
+        and bool(re.search(r"const BEVE_EMPTY_GENERIC_ARRAY: \[u8; 2\] = \[0x05, 0x00\];", norm(msg)))
+    for fn in ["decode_typed_slice_param", "decode_typed_slice_param_view"]:
+        sites[fn]["strict"] = sites[fn]["strict"] and bulk_strict
+    ref_body = norm(fn_body(srv, "decode_typed_slice_ref_body"))
+    ref_strict = bulk_strict and bool(re.fullmatch(r"if body\.first\(\) == Some\(&BEVE_ALIGNED_TYPED_ARRAY_MARKER\) \{ match beve::read_aligned_typed_slice_ref::<T>\(body\) \{ Ok\(slice\) => Ok\(SliceInput::Borrowed\(slice\)\), Err\(_\) => Ok\(SliceInput::Owned\(beve::read_aligned_typed_slice::<T>\( body,? \)\?\)\), \} \} else \{ Ok\(SliceInput::Owned\(read_typed_slice_body::<T>\(body\)\?\)\) \}", ref_body))
     # borrowed-slice route: one gate shared by both entry points, the error response is a closure argument
     m = re.search(r"\bfn\s+decode_typed_slice_ref_param\b", srv)
     if not m: raise ExtractError("fn decode_typed_slice_ref_param")
@@ -158,6 +167,7 @@ def handler_facts(disc, to_code):
         mm = re.search(r"decode_typed_slice_ref_param::<\w+>\(\s*(?:req|view)\.header\.body_format\s*,\s*&?\s*(?:req|view)\.body\s*,\s*\|\|\s*\{?\s*create_error_response_\w+\(\s*(?:req|view)\s*,\s*ErrorCode::(\w+)", b)
         code = disc.get(mm.group(1), 0) if mm else 0
         sites["decode_typed_slice_ref_param@" + entry] = dict(decode_site(srv, m.end(), disc, repe_fail, True, reject_code_of=lambda ex: code), emptySkips=False)
+        sites["decode_typed_slice_ref_param@" + entry]["strict"] &= ref_strict
     # JsonTypedAdapter / RegisteredStruct decode inline in `handle`
     ad = impl_block(srv, r"HandlerErased\s+for\s+JsonTypedAdapter\b[^{]*\{")
     sites["adapter"] = dict(decode_site(ad, 0, disc, repe_fail, True), emptySkips=False)
@@ -264,14 +274,21 @@ def serve_facts(sr):
         clo = norm(so[i + 1:match_brace(so, i) - 1])
         head = clo.split("dispatch(handler.as_ref(), &request, &ctx, notify)")[0] if "dispatch(handler.as_ref(), &request, &ctx, notify)" in clo else None
         f["wsOffRunsAlways"] = head is not None and not re.search(r"\breturn\b|\bif\b", head)
-        f["wsStampOff"] = bool(re.search(r"if let Some\(mut response\) = response \{ stamp_response_query\(&mut response, Cow::Owned\(request\.query\)\); let _ = outbound_tx\.blocking_send\(response\); \}", clo))
+        mm = re.search(r"if let Some\(mut response\) = response \{ stamp_response_query\(&mut response, Cow::Owned\(request\.query\)\); (.*?) \}$", clo)
+        f["wsStampOff"] = bool(mm)
+        # the hand-off to the writer: only a send that waits for room is recognised
+        f["wsOffSendWaits"] = bool(mm and re.fullmatch(r"(?:let _\w* = |_ = )?outbound_tx\.blocking_send\(response\)(?:\.ok\(\))?;", mm.group(1)))
     else:
-        f["wsOffRunsAlways"] = f["wsStampOff"] = False
+        f["wsOffRunsAlways"] = f["wsStampOff"] = f["wsOffSendWaits"] = False
     hc = fn_body(ws, "handle_connection_with_config")
     m = re.search(r"let\s+reader_result\s*=\s*\{", hc)
     if m:
         after = norm(hc[match_brace(hc, m.end() - 1):])
-        f["wsDrainOnExit"] = bool(re.match(r"; let _ = shutdown_tx\.send\(\(\)\); let writer_result = match writer_guard\.await \{.*\}; reader_result\.and\(writer_result\)$", after))
+        blk = norm(hc[m.end():match_brace(hc, m.end() - 1) - 1])
+        # the block's value is the select: a cancelled connection token ends the reader like a clean end (falls through
+        # to the drain), it does not leave the function
+        falls = bool(re.search(r"tokio::select! \{ r = reader_task\(ws_reader, &config\.router, conn, offreader_sem\) => r, _ = conn_token\.cancelled\(\) => Ok\(\(\)\),? \}$", blk)) and not re.search(r"\breturn\b", blk)
+        f["wsDrainOnExit"] = falls and bool(re.match(r"; let _ = shutdown_tx\.send\(\(\)\); let writer_result = match writer_guard\.await \{.*\}; reader_result\.and\(writer_result\)$", after))
     else:
         f["wsDrainOnExit"] = False
     return f
@@ -304,7 +321,7 @@ def render(f):
     L.append("def entryFacts : EntryFacts := ⟨[" + ", ".join("." + k for k in f["viewOverrides"]) + f"], {b(f['pipelineOverridesView'])}, {b(f['offReaderOverridesView'])}, {b(f['pipelineForwardsExecution'])}⟩")
     sv = f["serve"]
     order = ["viewNotifySilent", "ownedNotifySilent", "viewRejectNotifySilent", "wsRejectNotifySilent", "viewHandlerCalls", "ownedHandlerCalls",
-             "tcpEchoHelper", "atcpEchoHelper", "wsStampInline", "wsStampOff", "wsOffRunsAlways", "tcpFlushEach", "atcpFlushEach", "wsSendInOrder", "wsDrainOnExit"]
+             "tcpEchoHelper", "atcpEchoHelper", "wsStampInline", "wsStampOff", "wsOffRunsAlways", "tcpFlushEach", "atcpFlushEach", "wsSendInOrder", "wsDrainOnExit", "wsOffSendWaits"]
     L.append("def serveFacts : ServeFacts :=\n  { " + "\n    ".join(f"{k} := {sv[k] if isinstance(sv[k], int) and not isinstance(sv[k], bool) else b(sv[k])}" for k in order) + " }")
     L.append("end Repe.Gen")
     return "\n".join(L) + "\n"
